@@ -266,7 +266,7 @@ def main():
         engines=[dict(name="static-ir", path="bin/check.py", serves_properties=sorted(CLAIMED),
                       kind_free_text="custom static analysis: clang-14 -> LLVM IR (+debug info) -> tools/irfacts.cc JSON "
                                      "facts -> Python rule engines (call graph/effects, path typestate, table extraction, "
-                                     "arithmetic audit, discriminated-union typestate)")],
+                                     "arithmetic audit, discriminated-union typestate, window dataflow over (pointer, length) pairs)")],
         checks=checks,
         not_applicable=na,
         notes="Technique family: static analysis only. Exit 0 = all obligations discharged; 1 = VIOLATION lines; "
@@ -275,8 +275,10 @@ def main():
               "default build configuration and for {CBOR_BUFFER_GROWTH=3, CBOR_MAX_STACK_SIZE=5, CBOR_PRETTY_PRINTER=0} (thorough: two "
               "more), so that code the default build does not compile or that is right for the default constants only is judged too. "
               "Rules shared between properties (capacity-field, narrowing, no-access-after-free, record-items, insertion refusals, "
-              "guard semantics, ...) are listed per property in DESIGN.md 10.8. tools/regress.py re-runs all 129 behaviour-preserving "
-              "patches (must stay silent) and all 278 independently seeded property-breaking patches (owning check must fire).",
+              "guard semantics, ...) are listed per property in DESIGN.md 10.8. tools/regress.py re-runs all %d behaviour-preserving "
+              "patches (must stay silent) and all %d independently seeded property-breaking patches (owning check must fire; one, a "
+              "UTF-8 validator of a different construction, is answered analysis-broken by design)." % (
+                  len(os.listdir(os.path.join(VERIF, "benign"))), len(os.listdir(os.path.join(VERIF, "seeded")))),
     )
     json.dump(man, open(os.path.join(VERIF, "MANIFEST.json"), "w"), indent=1)
     print("MANIFEST.json: %d checks, %d not_applicable" % (len(checks), len(na)))
